@@ -1,4 +1,5 @@
 import LlgoVerif.Lemmas.Bounds
+import LlgoVerif.Lemmas.BoundsCall
 /-!
 # C03 — every run-time panic Go mandates is raised, recoverable, and raised only then
 
@@ -6,6 +7,15 @@ Fixed theorems.  The per-shape obligations "`x[i]` for this indexable kind and i
 index, at its source type's value, is outside `[0, len)` and otherwise addresses element `i`" are REGENERATED from
 the compiler's IR into `Gen/C03_idx.lean` on every run (statement: `f len i = idxSpec (GoArith.val s i) len`).
 Here: what `idxSpec` means, and the signal-based recovery state machine behind nil dereferences.
+
+Second regenerated family (`Gen/C03_bnd.lean`, from `harness/irgen/bndgen.py`): every 2- and 3-index slice expression on
+slices, strings, array pointers and array values, `make` of slices / channels / maps, `unsafe.Slice`/`unsafe.String`,
+slice→array(-pointer) conversion and the explicit nil check — statement per function: the routine reached and the operands
+handed over are exactly `fit <signedness of the operand's SOURCE type> operand` (omitted bounds: the header field Go
+prescribes; constants: themselves), the base pointer is the operand's storage, and the function returns the routine's
+result.  The theorems of the second half of this file compose that with the run-time routines (C05's `NewSlice3`,
+`StringSlice`, `MakeSlice`; `NewChan`, `sliceToArray` of `Model/BoundsCall.lean`): per form, *panics iff the SOURCE
+values violate Go's rule, and in range yields exactly the specified window*.
 -/
 namespace LlgoVerif.C03
 open LlgoVerif LlgoVerif.LLVM LlgoVerif.Bounds
@@ -87,5 +97,222 @@ theorem every_fault_recovered_if_mask_restored (evs : List SigEv) :
       rw [this.2]; simp [sigStep, h1, h2]; omega
   have := this evs {} rfl rfl
   simpa [sigRun] using this
+
+/-! ## bound operands ∘ run-time checks: slice expressions, make, conversions
+
+`a : BitVec w` is the operand as the program computed it (type of width `w ≤ 64`, signedness `s`), `GoArith.val s a` its
+value, `fit s a` what the generated obligations show the compiler hands over, `.toInt` how the runtime reads it. -/
+
+open LlgoVerif.BoundsCall LlgoVerif.Slice
+
+/-- Go's rule for `a[i:j:k]` (2-index forms: `k = cap`; omitted `i`: 0; omitted `j`: `len`) -/
+def slice3OK (cap i j k : Int) : Prop := 0 ≤ i ∧ i ≤ j ∧ j ≤ k ∧ k ≤ cap
+
+instance (cap i j k : Int) : Decidable (slice3OK cap i j k) := by unfold slice3OK; infer_instance
+
+/-- **no truncation, right extension** (every bound operand of every form): what the runtime reads is the source value
+    whenever that value is an `int` at all; otherwise (a 64-bit unsigned operand `≥ 2^63`) it reads a negative number -/
+theorem operand_handed (s : Bool) (a : BitVec w) (hw : w ≤ 64) :
+    (fit s a).toInt = GoArith.val s a ∨ ((fit s a).toInt < 0 ∧ 2 ^ 63 ≤ GoArith.val s a) :=
+  handed_fit s a hw
+
+theorem operand_exact (s : Bool) (a : BitVec w) (hw : w ≤ 64) (hfit : GoArith.val s a < 2 ^ 63) :
+    (fit s a).toInt = GoArith.val s a :=
+  handed_exact s a hw hfit
+
+example : GoArith.val false (200#8) < 2 ^ 63 ∧ (fit false (200#8)).toInt = 200 ∧ (fit true (200#8)).toInt = -56 := by decide
+
+/-- **`x[i:j:k]` end to end** (slice, array pointer, array; every operand type): the compiled expression panics iff the
+    SOURCE values violate `0 ≤ i ≤ j ≤ k ≤ cap`, and otherwise yields exactly `len = j-i`, `cap = k-i`, data `i` elements
+    into the base (base kept for an empty capacity window).  Omitted / constant bounds are the instances
+    `si = true, ai = len | cap | constant` (`fit true x = x`, `GoArith.val true x = x.toInt`). -/
+theorem slice_expr_spec (base : Nat) (esz : Int) (cap : BitVec 64)
+    (si sj sk : Bool) (ai : BitVec wi) (aj : BitVec wj) (ak : BitVec wk) (hi : wi ≤ 64) (hj : wj ≤ 64) (hk : wk ≤ 64) :
+    NewSlice3 base esz cap.toInt (fit si ai).toInt (fit sj aj).toInt (fit sk ak).toInt =
+      if slice3OK cap.toInt (GoArith.val si ai) (GoArith.val sj aj) (GoArith.val sk ak) then
+        .ok { data := if GoArith.val sk ak - GoArith.val si ai > 0 then advance base (GoArith.val si ai * esz) else base,
+              len := GoArith.val sj aj - GoArith.val si ai, cap := GoArith.val sk ak - GoArith.val si ai }
+      else .error .panic :=
+  newSlice3_handed base esz cap _ _ _ _ _ _ (handed_fit si ai hi) (handed_fit sj aj hj) (handed_fit sk ak hk)
+
+theorem slice_expr_panics_iff (base : Nat) (esz : Int) (cap : BitVec 64)
+    (si sj sk : Bool) (ai : BitVec wi) (aj : BitVec wj) (ak : BitVec wk) (hi : wi ≤ 64) (hj : wj ≤ 64) (hk : wk ≤ 64) :
+    NewSlice3 base esz cap.toInt (fit si ai).toInt (fit sj aj).toInt (fit sk ak).toInt = .error .panic ↔
+      ¬ slice3OK cap.toInt (GoArith.val si ai) (GoArith.val sj aj) (GoArith.val sk ak) := by
+  rw [slice_expr_spec base esz cap si sj sk ai aj ak hi hj hk]
+  split <;> simp_all
+
+example : slice3OK (BitVec.ofNat 64 300).toInt (GoArith.val false (200#8)) (GoArith.val false (250#8)) (GoArith.val true (299#16)) := by
+  decide
+
+/-- the 2-index form on a slice `s[i:j]` (operands of the generated `Sij_slice_*`): bound by the CAPACITY -/
+theorem slice2_spec (base : Nat) (esz : Int) (cap : BitVec 64) (si sj : Bool) (ai : BitVec wi) (aj : BitVec wj)
+    (hi : wi ≤ 64) (hj : wj ≤ 64) :
+    NewSlice3 base esz cap.toInt (fit si ai).toInt (fit sj aj).toInt cap.toInt = .error .panic ↔
+      ¬ (0 ≤ GoArith.val si ai ∧ GoArith.val si ai ≤ GoArith.val sj aj ∧ GoArith.val sj aj ≤ cap.toInt) := by
+  have h := newSlice3_handed base esz cap _ _ cap _ _ _ (handed_fit si ai hi) (handed_fit sj aj hj) (handed_self cap)
+  rw [h]
+  split <;> rename_i hc
+  · simp only [reduceCtorEq, false_iff, Classical.not_not]; exact ⟨hc.1, hc.2.1, hc.2.2.1⟩
+  · simp only [true_iff]; intro hh; exact hc ⟨hh.1, hh.2.1, hh.2.2, Int.le_refl _⟩
+
+/-- `s[i:]` (`Si_slice_*`): bound by the LENGTH; the result keeps the rest of the capacity -/
+theorem slice_low_spec (base : Nat) (esz : Int) (len cap : BitVec 64) (hl : 0 ≤ len.toInt ∧ len.toInt ≤ cap.toInt)
+    (si : Bool) (ai : BitVec wi) (hi : wi ≤ 64) :
+    NewSlice3 base esz cap.toInt (fit si ai).toInt len.toInt cap.toInt =
+      if 0 ≤ GoArith.val si ai ∧ GoArith.val si ai ≤ len.toInt then
+        .ok { data := if cap.toInt - GoArith.val si ai > 0 then advance base (GoArith.val si ai * esz) else base,
+              len := len.toInt - GoArith.val si ai, cap := cap.toInt - GoArith.val si ai }
+      else .error .panic := by
+  have h := newSlice3_handed base esz cap _ len cap _ _ _ (handed_fit si ai hi) (handed_self len) (handed_self cap)
+  rw [h]
+  by_cases hc : 0 ≤ GoArith.val si ai ∧ GoArith.val si ai ≤ len.toInt
+  · rw [if_pos hc, if_pos ⟨hc.1, hc.2, hl.2, Int.le_refl _⟩]
+  · rw [if_neg hc, if_neg (fun hh => hc ⟨hh.1, hh.2.1⟩)]
+
+example : (0 : Int) ≤ (BitVec.ofNat 64 3).toInt ∧ (BitVec.ofNat 64 3).toInt ≤ (BitVec.ofNat 64 5).toInt := by decide
+
+/-- `s[:j]` (`Sj_slice_*`) -/
+theorem slice_high_spec (base : Nat) (esz : Int) (cap : BitVec 64) (sj : Bool) (aj : BitVec wj) (hj : wj ≤ 64) :
+    NewSlice3 base esz cap.toInt (BitVec.ofInt 64 0).toInt (fit sj aj).toInt cap.toInt =
+      if 0 ≤ GoArith.val sj aj ∧ GoArith.val sj aj ≤ cap.toInt then
+        .ok { data := if cap.toInt > 0 then advance base 0 else base, len := GoArith.val sj aj, cap := cap.toInt }
+      else .error .panic := by
+  have h := newSlice3_handed base esz cap (BitVec.ofInt 64 0) _ cap 0 _ _ (Or.inl (by decide)) (handed_fit sj aj hj) (handed_self cap)
+  have hz : (BitVec.ofInt 64 0).toInt = 0 := by decide
+  rw [h]
+  by_cases hc : 0 ≤ GoArith.val sj aj ∧ GoArith.val sj aj ≤ cap.toInt
+  · rw [if_pos hc, if_pos ⟨Int.le_refl _, hc.1, hc.2, Int.le_refl _⟩]; simp
+  · rw [if_neg hc, if_neg (fun hh => hc ⟨hh.2.1, hh.2.2.1⟩)]
+
+/-- the elements of an in-range `x[i:j:k]` are the elements `i … j-1` of the operand's capacity window (C05's
+    `slice3_window` behind the compiler's operands) -/
+theorem slice_expr_window (m : Mem) (base : Nat) (esz : Int) (hesz : 0 ≤ esz) (cap : BitVec 64)
+    (si sj sk : Bool) (ai : BitVec wi) (aj : BitVec wj) (ak : BitVec wk) (hi : wi ≤ 64) (hj : wj ≤ 64) (hk : wk ≤ 64)
+    (hok : slice3OK cap.toInt (GoArith.val si ai) (GoArith.val sj aj) (GoArith.val sk ak)) :
+    ∃ s, NewSlice3 base esz cap.toInt (fit si ai).toInt (fit sj aj).toInt (fit sk ak).toInt = .ok s ∧
+      view m s esz = ((m.read base (cap.toInt * esz).toNat).drop (GoArith.val si ai * esz).toNat).take
+        ((GoArith.val sj aj - GoArith.val si ai) * esz).toNat := by
+  have hc := toInt_lt cap
+  have e1 := operand_exact si ai hi (by unfold slice3OK at hok; omega)
+  have e2 := operand_exact sj aj hj (by unfold slice3OK at hok; omega)
+  have e3 := operand_exact sk ak hk (by unfold slice3OK at hok; omega)
+  rw [e1, e2, e3]
+  refine ⟨_, slice3_ok base esz cap.toInt _ _ _ hok, ?_⟩
+  exact slice3_window' m base esz cap.toInt _ _ _ hesz hok _ (slice3_ok base esz cap.toInt _ _ _ hok)
+
+/-- **`str[i:j]` end to end**: panics iff NOT `0 ≤ i ≤ j ≤ len(str)` on the SOURCE values; otherwise the bytes `i … j-1` -/
+theorem string_slice_spec (str : List Nat) (len : BitVec 64) (hlen : len.toInt = str.length)
+    (si sj : Bool) (ai : BitVec wi) (aj : BitVec wj) (hi : wi ≤ 64) (hj : wj ≤ 64) :
+    StringSlice str (fit si ai).toInt (fit sj aj).toInt =
+      if 0 ≤ GoArith.val si ai ∧ GoArith.val si ai ≤ GoArith.val sj aj ∧ GoArith.val sj aj ≤ str.length then
+        .ok ((str.drop (GoArith.val si ai).toNat).take (GoArith.val sj aj - GoArith.val si ai).toNat)
+      else .error .panic :=
+  stringSlice_handed str len _ _ _ _ hlen (handed_fit si ai hi) (handed_fit sj aj hj)
+
+example : (BitVec.ofNat 64 3).toInt = ([97, 98, 99] : List Nat).length := by decide
+
+/-- **`make([]T, n, m)` end to end**: panics iff NOT (`0 ≤ n ≤ m`, `m` an `int`, `m * sizeof(T) ≤ maxAlloc`) on the SOURCE
+    values (`make([]T, n)`: the same operand twice) -/
+theorem make_slice_spec (m : Mem) (esz : Int) (hesz : 0 ≤ esz ∧ esz < 2 ^ 63)
+    (sl sc : Bool) (al : BitVec wl) (ac : BitVec wc) (hl : wl ≤ 64) (hc : wc ≤ 64) :
+    MakeSlice m (fit sl al).toInt (fit sc ac).toInt esz = .error .panic ↔
+      ¬ (0 ≤ GoArith.val sl al ∧ GoArith.val sl al ≤ GoArith.val sc ac ∧ GoArith.val sc ac < 2 ^ 63 ∧
+         GoArith.val sc ac * esz ≤ 2 ^ 48) :=
+  makeSlice_handed m esz _ _ _ _ hesz (handed_fit sl al hl) (handed_fit sc ac hc)
+
+example : (0 : Int) ≤ 4 ∧ (4 : Int) < 2 ^ 63 := by decide
+
+/-- in range `make` returns exactly a fresh zeroed block of `m` elements with `len = n`, `cap = m` -/
+theorem make_slice_in_range (m : Mem) (esz : Int) (hesz : 0 ≤ esz ∧ esz < 2 ^ 63)
+    (sl sc : Bool) (al : BitVec wl) (ac : BitVec wc) (hl : wl ≤ 64) (hc : wc ≤ 64)
+    (hok : 0 ≤ GoArith.val sl al ∧ GoArith.val sl al ≤ GoArith.val sc ac ∧ GoArith.val sc ac < 2 ^ 63 ∧
+      GoArith.val sc ac * esz ≤ 2 ^ 48) :
+    ∃ m', MakeSlice m (fit sl al).toInt (fit sc ac).toInt esz = .ok (m', ⟨m.next, GoArith.val sl al, GoArith.val sc ac⟩) ∧
+      (∀ i, i < (GoArith.val sc ac * esz).toNat → m'.bytes (m.next + i) = 0) := by
+  rw [operand_exact sl al hl (by omega), operand_exact sc ac hc hok.2.2.1]
+  exact makeSlice_in_range m _ _ esz hesz hok.2.2.1 ⟨hok.1, hok.2.1, hok.2.2.2⟩
+
+example : (0 : Int) ≤ GoArith.val false (3#8) ∧ GoArith.val false (3#8) ≤ GoArith.val true (5#16) ∧
+    GoArith.val true (5#16) < 2 ^ 63 ∧ GoArith.val true (5#16) * 4 ≤ 2 ^ 48 := by decide
+
+/-- what Go demands of `make(chan T, n)` at run time -/
+def MakeChanFull (cfg : BCfg) : Prop :=
+  ∀ esz n : Int, 0 ≤ esz ∧ esz < 2 ^ 63 → -2 ^ 63 ≤ n ∧ n < 2 ^ 63 →
+    (NewChan cfg esz n = .error .panic ↔ ¬ chanOK esz n)
+
+/-- it holds of `NewChan` with `fixes/C03-4.diff` … -/
+theorem makeChan_fixed : MakeChanFull BCfg.fixed := fun esz n h1 h2 => newChan_fixed_panics_iff esz n h1 h2
+
+/-- … and is FALSE on the unfixed tree: `make(chan int64, 1<<62)` does not panic (the byte size wraps to 0); the check
+    replays this input on the compiled program (finding `panic:make-chan-oversize`) -/
+theorem makeChan_counterexample : ¬ MakeChanFull BCfg.current := by
+  intro h
+  have := (h 8 (2 ^ 62) (by decide) (by decide)).2 (by decide)
+  rw [newChan_current_panics_iff] at this
+  exact absurd this (by decide)
+
+/-- what does hold on the unfixed tree: exact for every size whose buffer fits the allocation limit (and every negative one) -/
+theorem makeChan_partial (esz n : Int) (h : n < 0 ∨ n * esz ≤ 2 ^ 48) :
+    NewChan BCfg.current esz n = .error .panic ↔ ¬ chanOK esz n := by
+  rw [newChan_current_panics_iff]
+  unfold chanOK
+  constructor
+  · intro h1 h2; omega
+  · intro h1; rcases h with h | h
+    · exact h
+    · by_cases hn : n < 0
+      · exact hn
+      · exact absurd ⟨by omega, h⟩ h1
+
+example : (3 : Int) < 0 ∨ (3 : Int) * 8 ≤ 2 ^ 48 := by decide
+
+/-- in range both configurations build the channel Go specifies: capacity `n`, room for `n` elements -/
+theorem make_chan_in_range (cfg : BCfg) (esz : Int) (hesz : 0 ≤ esz ∧ esz < 2 ^ 63) (s : Bool) (a : BitVec w) (hw : w ≤ 64)
+    (hok : chanOK esz (GoArith.val s a)) (hint : GoArith.val s a < 2 ^ 63) :
+    NewChan cfg esz (fit s a).toInt = .ok ⟨GoArith.val s a, (GoArith.val s a * esz).toNat⟩ := by
+  rw [operand_exact s a hw hint]
+  exact newChan_in_range cfg esz _ hesz hok
+
+example : chanOK 4 (GoArith.val false (200#8)) ∧ GoArith.val false (200#8) < 2 ^ 63 := by decide
+
+/-- a negative or non-`int` size always panics, through the compiler's operand, in both configurations -/
+theorem make_chan_negative (cfg : BCfg) (esz : Int) (s : Bool) (a : BitVec w) (hw : w ≤ 64)
+    (hbad : GoArith.val s a < 0 ∨ 2 ^ 63 ≤ GoArith.val s a) :
+    NewChan cfg esz (fit s a).toInt = .error .panic := by
+  have hneg : (fit s a).toInt < 0 := by
+    rcases handed_fit s a hw with h | h <;> rcases hbad with hb | hb
+    · omega
+    · have := toInt_lt (fit s a); omega
+    · exact h.1
+    · exact h.1
+  rw [newChan_eq, if_pos (Or.inr hneg)]
+
+example : GoArith.val true (255#8) < 0 ∨ 2 ^ 63 ≤ GoArith.val true (255#8) := by decide
+
+/-- **slice → array(-pointer) conversion**: panics iff the slice is shorter than the array; otherwise the data pointer -/
+theorem slice_to_array_spec (len : BitVec 64) (n : Int) (data : Nat) :
+    (sliceToArray len.toInt n data = .error .panic ↔ len.toInt < n) ∧
+    (n ≤ len.toInt → sliceToArray len.toInt n data = .ok data) :=
+  sliceToArray_spec len.toInt n data
+
+/-- slicing through a nil array pointer must panic (Go dereferences the pointer) -/
+def NilArraySliceFull (cfg : BCfg) : Prop := ∀ p : Nat, p = 0 → nilArrayCheck cfg p = .error .panic
+
+theorem nilArraySlice_fixed : NilArraySliceFull BCfg.fixed := by
+  intro p hp; simp [nilArrayCheck, BCfg.fixed, hp]
+
+/-- FALSE on the unfixed tree: `(*[10]int32)(nil)[:]`, `[1:2]`, `[0:0]` return a slice (finding
+    `panic:nil-array-pointer-slice`, replayed on the compiled program by the check) -/
+theorem nilArraySlice_counterexample : ¬ NilArraySliceFull BCfg.current := by
+  intro h
+  have := h 0 rfl
+  simp [nilArrayCheck, BCfg.current] at this
+
+/-- a non-nil array pointer is never rejected by the (present or absent) check -/
+theorem nilArraySlice_partial (cfg : BCfg) (p : Nat) (hp : p ≠ 0) : nilArrayCheck cfg p = .ok () := by
+  simp [nilArrayCheck, hp]
+
+example : (4096 : Nat) ≠ 0 := by decide
 
 end LlgoVerif.C03
